@@ -264,8 +264,18 @@ def runner(pid, prop, tier, seed, scratch, replay=None):
                 files, kind = {"a.pyxis": raw_idents(rng)}, "raw_identifiers"
             elif i % 40 == 33:
                 files, kind = {"a.pyxis": clash_inputs(rng)}, "rename_clashes"
+            elif i % 20 == 19 or i % 40 == 3:
+                ld = located_damage(rng, rng.choice(valid))
+                if ld is None:
+                    files, kind = {"a.pyxis": error_paths(rng)}, "error_paths"
+                else:
+                    files, kind = ld[0], "located_damage"
+                    cases.append(dict(id="c12-%d" % i, ptr=ptr, schedule=[], files=files, kind=kind, damage=ld[1]))
+                    continue
             elif k < 2:
                 files, kind = {"a.pyxis": token_soup(rng)}, "token_soup"
+            elif k == 4:
+                files, kind = {"a.pyxis": error_paths(rng)}, "error_paths"
             elif k < 5:
                 src = rng.choice(valid)
                 name = rng.choice(sorted(src))
@@ -284,14 +294,6 @@ def runner(pid, prop, tier, seed, scratch, replay=None):
                 files, kind = {"a.pyxis": cyclic(rng), "b/c.pyxis": "use a;\ntype X { p: *const C0 }\n"}, "cyclic"
             elif i % 20 == 9:
                 files, kind = {"a.pyxis": absurd(rng)}, "absurd_numbers"
-            elif i % 20 == 19 or i % 40 == 3:
-                ld = located_damage(rng, rng.choice(valid))
-                if ld is None:
-                    files, kind = {"a.pyxis": error_paths(rng)}, "error_paths"
-                else:
-                    files, kind = ld[0], "located_damage"
-                    cases.append(dict(id="c12-%d" % i, ptr=ptr, schedule=[], files=files, kind=kind, damage=ld[1]))
-                    continue
             else:
                 files, kind = {"a.pyxis": error_paths(rng)}, "error_paths"
             cases.append(dict(id="c12-%d" % i, ptr=ptr, schedule=[], files=files, kind=kind))
